@@ -8,9 +8,14 @@
 //                                         bj: jbl_merge_patch            bb: jbl_merge_patch_jbl
 //   mpath <tp|th> <doc> <path> <val>      jbn_merge_patch_path (val "-" = no value)
 //   cmp <a> <b>                           jbn_compare_nodes(a, b) == 0 and (b, a) == 0: the equality `test` uses -> eq=<0|1> rev=<0|1>
+//   reg <m|r|s> <doc> <path> <val>        a registry (iwjsreg_open on a file holding <doc>: heap-allocated tree) and ONE call:
+//                                         m: iwjsreg_merge(reg, path, val)   r: iwjsreg_replace(reg, path, val)
+//                                         s: the typed entry point for a scalar val (iwjsreg_merge_str/_i64/_f64/_bool/_remove)
+//                                         -> rc=<enum> doc=<dump of the registry's root> links= dirty=<0|1> leak=<0|1>
 // Answer: rc=<enum> doc=<canonical dump> [kl=<cached indices of array items, dfs>] [links=ok|bad] [unchanged=0|1] [leak=0|1]
 // Includes iwjson.c itself so that the static functions are reachable.
 #include "json/iwjson.c"
+#include "json/iwjsreg.c"
 #include "hcommon.h"
 #include <errno.h>
 
@@ -351,6 +356,58 @@ mdone:
         printf(" leak=%d\n", leak_check());
       }
 qdone:
+      iwpool_destroy(pool);
+      free(doc); free(path); free(val);
+    } else if (!strcmp(tv[0], "reg") && n == 5) {
+      const char *mode = tv[1];
+      uint8_t *doc, *path, *val;
+      size_t dl = unhex0(tv[2], &doc); unhex0(tv[3], &path);
+      int hasval = strcmp(tv[4], "-") != 0;
+      unhex0(tv[4], &val);
+      char fn[64];
+      snprintf(fn, sizeof(fn), "/dev/shm/jpatch-reg-%d.json", (int) getpid());
+      struct iwpool *pool = iwpool_create(4096);
+      struct jbl_node *vn = 0;
+      struct iwjsreg *reg = 0;
+      iwrc rc = 0;
+      FILE *f = fopen(fn, "w");
+      if (!f || fwrite(doc, 1, dl, f) != dl) { printf("tmpfile=failed\n"); if (f) fclose(f); goto rdone; }
+      fclose(f);
+      if (hasval) {
+        rc = jbn_from_json((char*) val, &vn, pool);
+        if (rc) { printf("patchparse=%s\n", rcname(rc)); goto rdone; }
+      }
+      {
+        struct iwjsreg_spec spec = { .path = fn, .flags = IWJSREG_READONLY };
+        rc = iwjsreg_open(&spec, &reg);
+        if (rc) { printf("docparse=%s\n", rcname(rc)); reg = 0; goto rdone; }
+      }
+      if (mode[0] == 'm') {
+        rc = iwjsreg_merge(reg, (char*) path, vn);
+      } else if (mode[0] == 'r') {
+        rc = iwjsreg_replace(reg, (char*) path, vn);
+      } else if (vn && vn->type == JBV_STR) {
+        rc = iwjsreg_merge_str(reg, (char*) path, vn->vptr, mode[1] == 'l' ? vn->vsize : -1);
+      } else if (vn && vn->type == JBV_I64) {
+        rc = iwjsreg_merge_i64(reg, (char*) path, vn->vi64);
+      } else if (vn && vn->type == JBV_F64) {
+        rc = iwjsreg_merge_f64(reg, (char*) path, vn->vf64);
+      } else if (vn && vn->type == JBV_BOOL) {
+        rc = iwjsreg_merge_bool(reg, (char*) path, vn->vbool);
+      } else if (vn && vn->type == JBV_NULL) {
+        rc = iwjsreg_merge_remove(reg, (char*) path);
+      } else {
+        printf("?\n"); goto rdone;
+      }
+      out_tree(rc, reg->root, 0);
+      printf(" dirty=%d", reg->dirty ? 1 : 0);
+      fflush(stdout);
+      iwjsreg_close(&reg);      // read-only: no file is written; the last reference frees the tree
+      reg = 0;
+      printf(" leak=%d\n", leak_check());
+rdone:
+      if (reg) iwjsreg_close(&reg);
+      unlink(fn);
       iwpool_destroy(pool);
       free(doc); free(path); free(val);
     } else if (!strcmp(tv[0], "cmp") && n == 3) {
